@@ -45,6 +45,12 @@ WAITS = [["0", "s"], ["0.04", "s"], ["0.05", "s"], ["0.1", "s"], ["0.15", "s"], 
          ["0.0001", "h"], ["0.00025", "h"], ["0.0005", "h"]]
 TOT_STEPS = [0.0, 0.125, 0.125, 0.25, 0.25, 0.5]     # binary-exact litres added per tick of a segment
 IN2_STEPS = [2, 4, 8, 16, 30]
+# thresholds of lines in a macro body: the body runs under whatever Base is in force at the call, so the numbers are small
+# enough to be reachable as s, min (0.1 min = 6 s), L and mL
+MACRO_THRESHOLDS = ["0", "0.005", "0.01", "0.02", "0.05", "0.1", "0.1", "0.2", "0.3", "0.5", "1"]
+MACRO_WAITS = [["0.3", "s"], ["0.5", "s"], ["0.75", "s"], ["1", "s"], ["1.5", "s"], ["0.01", "min"], ["0.02", "min"], ["0.0002", "h"],
+               ["0.1", "s"], ["0.05", "s"]]
+ALARM_CONDS = [[">=", 1], ["=", 1], ["=", 2], [">", 1], [">=", 3]]
 
 
 def frac(s: str) -> Fraction:
@@ -66,6 +72,22 @@ def _thr(draw, base: str, p_num: int, p_den: int):
     return draw(st.sampled_from(THRESHOLDS[base]))
 
 
+def _repeat_body(draw, thresholds: bool):
+    """body of a macro (thresholds allowed) or an Alarm (none): 1-3 lines with at least one Wait or thresholded line"""
+    out = []
+    for i in range(draw(st.integers(1, 3))):
+        k = draw(st.sampled_from(["wait", "wait", "mark", "mark", "quick"]))
+        c: dict = {"k": k, "t": None}
+        if k == "wait":
+            c["w"] = draw(st.sampled_from(MACRO_WAITS))
+            c["d"] = 0.0
+        if thresholds and draw(st.integers(0, 2)) > 0:
+            c["ts"] = draw(st.sampled_from(MACRO_THRESHOLDS))
+        out.append(c)
+    out.append({"k": "mark", "t": None})        # every Wait of the body has a successor in the body
+    return out
+
+
 @st.composite
 def _body(draw, depth: int, n_max: int, st_base: list, in_block: bool, opts: dict):
     """st_base is a one-element list holding the Base unit in force at this point of the main thread (source order =
@@ -77,6 +99,10 @@ def _body(draw, depth: int, n_max: int, st_base: list, in_block: bool, opts: dic
         kinds += ["block"] * 4
     if opts.get("watch"):
         kinds += ["watch"] * 3
+    if opts.get("alarm"):
+        kinds += ["alarm"]
+    if opts.get("macro_name"):
+        kinds += ["callmacro"] * (4 if in_block else 3)
     for _ in range(n):
         k = draw(st.sampled_from(kinds))
         nd: dict = {"k": k, "t": None}
@@ -98,6 +124,13 @@ def _body(draw, depth: int, n_max: int, st_base: list, in_block: bool, opts: dic
             nd["end"] = draw(st.sampled_from(["endblock"] * 5 + ["endblocks"]))
             nd["end_t"] = None
             nd["end_ts"] = _thr(draw, st_base[0], 1, 2)
+        elif k == "callmacro":
+            nd["name"] = opts["macro_name"]
+        elif k == "alarm":
+            # fires again whenever its condition holds after the body completed: its Waits run several times in one run
+            op, val = draw(st.sampled_from(ALARM_CONDS))
+            nd["cond"] = {"tag": "In2", "op": op, "val": val, "unit": None}
+            nd["c"] = _repeat_body(draw, False)
         elif k == "watch":
             # interrupt body without thresholds, blocks, Base or End block: the clock of every main-thread line stays the one
             # of its lexical scope (see c03.py, signature late:interrupt-scope-shadows-program-scope)
@@ -115,7 +148,25 @@ def _body(draw, depth: int, n_max: int, st_base: list, in_block: bool, opts: dic
 def cases(draw, opts: dict):
     base = draw(st.sampled_from(["s", "s", "s", "s", "min", "h", "L", "mL", None]))
     st_base = [base or DEFAULT_BASE]
+    opts = dict(opts)
+    macro = None
+    if opts.get("macro") and draw(st.integers(0, 9)) < 4:
+        # one macro, defined first, called from main-thread lines (also inside Blocks) any number of times
+        macro = {"k": "macro", "t": None, "ts": None, "name": "M1", "c": _repeat_body(draw, True)}
+        opts["macro_name"] = "M1"
     body = draw(_body(opts["depth"], opts["top"], st_base, False, opts))
+    if macro is not None:
+        body = [macro] + body
+        if draw(st.integers(0, 1)):
+            # make the interesting pattern frequent: call, Base change, call again (the second one in a fresh Block half the time)
+            u2 = draw(st.sampled_from(["s", "min", "min", "L", "mL"]))
+            call = {"k": "callmacro", "t": None, "ts": None, "name": "M1"}
+            tail = [dict(call), {"k": "base", "t": None, "ts": None, "u": u2}]
+            if draw(st.integers(0, 1)):
+                tail.append({"k": "block", "t": None, "ts": None, "c": [dict(call)], "end": "endblock", "end_t": None, "end_ts": None})
+            else:
+                tail.append(dict(call))
+            body = body + tail
     tree = {"base": base, "body": body}
     max_ticks = opts["max_ticks"]
     # user Pause/Hold windows between ticks (closed again so that the run goes on)
@@ -211,19 +262,34 @@ def valid_tree(tree) -> bool:
             return False
         return 0 <= f <= 10000 and all(ch in "0123456789." for ch in x) and not x.startswith(".") and not x.endswith(".")
 
-    def ok_nodes(nodes, in_int):
+    def ok_nodes(nodes, in_int, top=False):
+        """in_int: False (main thread), "int" (Watch/Alarm body), "macro" (macro body, thresholds allowed)"""
         if not isinstance(nodes, list):
             return False
         for n in nodes:
             if not isinstance(n, dict) or n.get("t") is not None:
                 return False
             k = n.get("k")
-            if k not in ("mark", "quick", "slow", "set", "info", "base", "blank", "comment", "wait", "block", "watch"):
+            if k not in ("mark", "quick", "slow", "set", "info", "base", "blank", "comment", "wait", "block", "watch", "alarm",
+                         "macro", "callmacro"):
                 return False
             if not ok_thr(n.get("ts")) or not ok_thr(n.get("end_ts")):
                 return False
-            if in_int and (n.get("ts") is not None or k in ("block", "base", "watch")):
+            if in_int and (k in ("block", "base", "watch", "alarm", "macro", "callmacro") or (in_int == "int" and n.get("ts") is not None)):
                 return False
+            if k == "macro":
+                if not top or n.get("name") not in ("M1", "M2") or n.get("ts") is not None or not n.get("c") \
+                        or not ok_nodes(n["c"], "macro"):
+                    return False
+            if k == "callmacro" and n.get("name") not in ("M1", "M2"):
+                return False
+            if k == "alarm":
+                c = n.get("cond")
+                if not (isinstance(c, dict) and c.get("tag") == "In2" and [c.get("op"), c.get("val")] in ALARM_CONDS
+                        and "unit" in c and c["unit"] is None):
+                    return False
+                if not n.get("c") or not ok_nodes(n["c"], "int"):
+                    return False
             if k == "slow" and not (isinstance(n.get("n"), int) and 1 <= n["n"] <= 4):
                 return False
             if k == "set" and not (n.get("reg") in (1, 2, 3) and isinstance(n.get("v"), int) and 0 <= n["v"] <= 9):
@@ -246,11 +312,11 @@ def valid_tree(tree) -> bool:
                 if not (isinstance(c, dict) and c.get("tag") == "In2" and c.get("op") in (">", ">=") and c.get("val") in (1, 2)
                         and c.get("unit") is None):
                     return False
-                if not n.get("c") or not ok_nodes(n["c"], True):
+                if not n.get("c") or not ok_nodes(n["c"], "int"):
                     return False
         return True
 
-    return isinstance(tree, dict) and tree.get("base") in BASE_UNITS + [None] and ok_nodes(tree.get("body"), False)
+    return isinstance(tree, dict) and tree.get("base") in BASE_UNITS + [None] and ok_nodes(tree.get("body"), False, True)
 
 
 def valid_case(case) -> bool:
@@ -284,7 +350,7 @@ def valid_case(case) -> bool:
 
 class Run:
     """what one execution of a case showed"""
-    __slots__ = ("ticks", "first_start", "events", "rejected", "error", "raised", "method_end", "tot_at")
+    __slots__ = ("ticks", "first_start", "starts", "events", "rejected", "error", "raised", "method_end", "tot_at")
 
 
 def run(case, tree=None, until_started: str | None = None, max_ticks: int | None = None) -> Run:
@@ -298,6 +364,8 @@ def run(case, tree=None, until_started: str | None = None, max_ticks: int | None
     h = EngineHarness([(l.id, l.text) for l in lines], t0=t0)
     r = Run()
     r.ticks, r.first_start, r.rejected, r.error, r.raised, r.method_end, r.tot_at = [], {}, 0, None, None, None, {}
+    r.starts = {}          # line id -> ticks at which an execution of the line was first reported started
+    status: dict = {}      # line id -> 'S' started / 'E' executed / 'F' failed, as reported at the end of the previous tick
     sched: dict = {}
     for t, c in case["sched"]:
         sched.setdefault(t, []).append(c)
@@ -337,12 +405,18 @@ def run(case, tree=None, until_started: str | None = None, max_ticks: int | None
                 r.raised = o.raised
                 break
             ms = h.method_state()
-            for lid in ms.started_line_ids:
-                r.first_start.setdefault(lid, o.no)
-            for lid in ms.executed_line_ids:
-                r.first_start.setdefault(lid, o.no)
-            for lid in ms.failed_line_ids:
-                r.first_start.setdefault(lid, o.no)
+            cur = {lid: "S" for lid in ms.started_line_ids}
+            cur.update({lid: "E" for lid in ms.executed_line_ids})
+            cur.update({lid: "F" for lid in ms.failed_line_ids})
+            for lid, stt in cur.items():
+                was = status.get(lid)
+                # a new execution: the line was not reported at all after the previous tick (never run, or reset by a new
+                # macro call / Alarm firing), or it was reported executed and is now reported started (not yet executed)
+                # again (first line of a macro body: reset and started in the tick of the call)
+                if was is None or (was in "EF" and stt == "S"):
+                    r.starts.setdefault(lid, []).append(o.no)
+                    r.first_start.setdefault(lid, o.no)
+            status = cur
             if until_started is not None and until_started in r.first_start:
                 break
             if h.last_error is not None:
